@@ -223,6 +223,8 @@ def same_fit(a, b):
 
 class ContainerEngine:
     prop = "C16"
+    watchdog_s = 2400      # a thorough history enumerates every save
+    chunk = 1
     components = {
         "real": COMPONENTS["real"] + ["h5py on real files in a run-private "
                                       "scratch directory (/dev/shm)"],
